@@ -24,6 +24,8 @@ import Mathlib.Data.List.Perm.Basic
 import Mathlib.Order.Basic
 import Mathlib.Algebra.Order.Ring.Int
 import Mathlib.Tactic.IntervalCases
+import Mathlib.Tactic.Ring
+import Mathlib.Algebra.Order.Field.Rat
 
 namespace CBV.C13
 
@@ -72,6 +74,22 @@ theorem T_C13_on_manifold {cfg : Cfg P Prm} {n : Nat} {st : St P Prm} (hr : Rest
     ∃ x, st.pts[idx]? = some x ∧ On j x := by
   obtain ⟨p, hp⟩ := hr.prm_some hj
   exact ⟨_, (hr.2.2 j idx p hj hp).1, hOn j p⟩
+
+/-- `hOn` is satisfiable with geometric content: the `LineClamp` function `p1 + t·d` maps every
+    parameter onto the line through `p1` with direction `d` … -/
+example (p1 d : V3) (t : Rat) : V3.cross ((p1 + V3.smul t d) - p1) d = V3.zero := by
+  apply V3.ext' <;> simp [V3.zero] <;> ring
+
+/-- … and the `PlaneClamp` function `p + a·u + b·v` (u, v ⟂ n) onto the plane through `p` with normal `n`
+    (C17 treats the library's clamps in full) -/
+example (p u v n : V3) (a b : Rat) (hu : V3.dot u n = 0) (hv : V3.dot v n = 0) :
+    V3.dot ((p + V3.smul a u + V3.smul b v) - p) n = 0 := by
+  simp only [V3.dot] at hu hv ⊢
+  simp only [V3.sub_x, V3.sub_y, V3.sub_z, V3.add_x, V3.add_y, V3.add_z, V3.smul_x, V3.smul_y, V3.smul_z]
+  have : (p.x + a * u.x + b * v.x - p.x) * n.x + (p.y + a * u.y + b * v.y - p.y) * n.y +
+      (p.z + a * u.z + b * v.z - p.z) * n.z
+      = a * (u.x * n.x + u.y * n.y + u.z * n.z) + b * (v.x * n.x + v.y * n.y + v.z * n.z) := by ring
+  rw [this, hu, hv]; ring
 
 /-- **Links.** In a consistent state every follower of a clamped leader is the image of the
     leader's current position under its link. -/
